@@ -70,6 +70,8 @@ pub enum Marker {
     Coin,
     /// marker_type 2 (restricted)
     Restricted,
+    /// marker_type 2 (restricted) whose marker account also lists required attributes
+    RestrictedAttrs,
 }
 
 /// The chain's answers to the contract's queries; constant during one exploration.
@@ -84,7 +86,7 @@ impl Chain {
         *self.markers.get(denom).unwrap_or(&Marker::None)
     }
     pub fn restricted(&self, denom: &str) -> bool {
-        self.marker(denom) == Marker::Restricted
+        matches!(self.marker(denom), Marker::Restricted | Marker::RestrictedAttrs)
     }
     pub fn has_attrs(&self, addr: &str, required: &[String]) -> bool {
         let have = self.attrs.get(addr);
@@ -126,8 +128,9 @@ impl Querier for Chain {
                         )))
                     }
                     Marker::Coin => 1,
-                    Marker::Restricted => 2,
+                    Marker::Restricted | Marker::RestrictedAttrs => 2,
                 };
+                let required_attributes: Vec<String> = if self.marker(&r.id) == Marker::RestrictedAttrs { vec!["kyc.passport.pb".into()] } else { vec![] };
                 let m = MarkerAccount {
                     base_account: Some(BaseAccount {
                         address: format!("marker_{}", r.id),
@@ -144,7 +147,7 @@ impl Querier for Chain {
                     supply_fixed: false,
                     allow_governance_control: true,
                     allow_forced_transfer: false,
-                    required_attributes: vec![],
+                    required_attributes,
                 };
                 let resp = QueryMarkerResponse {
                     marker: Some(Any {
@@ -403,6 +406,7 @@ pub fn do_migrate(store: &Store, chain: &Chain, msg: &MigrateMsg) -> Outcome {
 }
 
 /// Result of a query: the store afterwards (must be identical), and the answer.
+#[derive(Debug)]
 pub enum QueryOutcome {
     Aborted,
     Err(String),
